@@ -712,6 +712,110 @@ PTRACE_ABI = {
 PTRACE_PEEKUSER = 3
 
 
+def rule_fresh_context(ctx, R="C04/fresh-context"):
+    """`never ... given another thread's state`: the CPU context a thread's registers are written into starts out blank FOR THAT THREAD.
+    Neither fill_cpu_context writes every field (the crash-context one leaves ds/es/ss and the debug registers alone, relying on a
+    zeroed context), so the local handed to fill_cpu_context must be (re)initialised inside the same iteration of the thread loop."""
+    b = ctx.body(R, "linux::sections::thread_list_stream::write")
+    if b is None:
+        return
+    loops = b.loops()
+    fills = [(bi, t) for bi, t in b.calls(lambda c: (c.short or "").endswith("fill_cpu_context") or (c.target or "").endswith("fill_cpu_context"))]
+    ctx.floor(R, "fill_cpu_context calls in the thread loop", len(fills), 2)
+    roots = []
+    for k, (bi, t) in enumerate(fills):
+        inner = [h for h, body in loops.items() if bi in body]
+        if not inner:
+            ctx.unproven(R, ("fill", k + 1), b.where(bi), "fill_cpu_context is not called inside the thread loop")
+            continue
+        h = min(inner, key=lambda x: len(loops[x]))
+        # the &mut argument: find the local it borrows
+        arg = t["args"][1] if len(t["args"]) > 1 else None
+        src_local = None
+        if arg is not None and arg.get("p") is not None:
+            cur, seen = arg["p"]["l"], set()
+            # follow `tmp = &mut X` / `tmp = &mut *tmp2` / `tmp = move tmp2` down to the local that holds the context
+            while cur not in seen:
+                seen.add(cur)
+                nxt = None
+                for blk in b.blocks:
+                    for st in blk["stmts"]:
+                        if st["k"] == "assign" and st["p"]["l"] == cur and not st["p"]["proj"]:
+                            r = st["r"]
+                            if r["k"] == "ref" and r.get("bk") == "mut":
+                                nxt = (r["p"]["l"], [pj["k"] for pj in r["p"]["proj"]])
+                            elif r["k"] in ("move", "copy") and r.get("p") is not None and not r["p"]["proj"]:
+                                nxt = (r["p"]["l"], ["deref"])
+                if nxt is None:
+                    break
+                if not nxt[1]:
+                    src_local = nxt[0]
+                    break
+                if nxt[1] != ["deref"]:
+                    break
+                cur = nxt[0]
+        if src_local is None:
+            ctx.unproven(R, ("fill", k + 1), b.where(bi), "cannot identify the context local handed to fill_cpu_context")
+            continue
+        inits = [x for x, blk in enumerate(b.blocks) for st in blk["stmts"] if st["k"] == "assign" and st["p"]["l"] == src_local and not st["p"]["proj"]]
+        inits += [x for x, t2 in b.calls() if t2.get("dest") and t2["dest"]["l"] == src_local and not t2["dest"]["proj"]]
+        # some initialising block lies inside the loop body and dominates the fill: every iteration passes through it first
+        fresh = any(x in loops[h] and x != h and b.dominates(x, bi) for x in inits)
+        roots.append((k, bi, t, src_local, fresh))
+    for k, bi, t, src_local, fresh in roots:
+        if fresh:
+            ctx.ok(R, ("fill", k + 1), b.where(bi), "the context filled here is blank for this thread (initialised in the same iteration)")
+            continue
+        # a context that lives across iterations is still this thread's alone if this fill overwrites every field that any
+        # fill sharing the local may have written for an earlier thread
+        mine = _fill_writes(ctx, t)
+        if mine is None:
+            ctx.unproven(R, ("fill", k + 1), b.where(bi), "the context handed to fill_cpu_context outlives one iteration and the fill's writes cannot be enumerated")
+            continue
+        stale = set()
+        for k2, bi2, t2, src2, _f in roots:
+            if src2 != src_local:
+                continue
+            w2 = _fill_writes(ctx, t2)
+            if w2 is None:
+                stale.add("?")
+            else:
+                stale |= w2[0] - mine[1]
+        ctx.check(not stale, R, ("fill", k + 1), b.where(bi), "the context filled here outlives one iteration, but this fill overwrites every field an earlier fill may have set",
+                  "the CPU context handed to fill_cpu_context is initialised outside the thread loop and this fill does not overwrite field(s) %s that a fill for the thread written before may have set: they carry over into this thread's record" % ", ".join(sorted(stale, key=lambda v: (len(v), v))))
+
+
+def _fill_writes(ctx, t):
+    """(may, must) top-level fields of `*out` written by the fill_cpu_context this call resolves to; must = written in a block that
+    dominates every return."""
+    cv = CalleeView(t["callee"])
+    cands = [x for x in ctx.prog.bodies if x.name == norm(cv.target or cv.short or "") or (cv.short and x.name.endswith(norm(cv.short)))]
+    if len(cands) != 1:
+        return None
+    f = cands[0]
+    rets = [x for x, blk in enumerate(f.blocks) if (blk.get("term") or {}).get("k") == "return"]
+    may, must = set(), set()
+    for x, blk in enumerate(f.blocks):
+        for st in blk["stmts"]:
+            if st["k"] != "assign":
+                continue
+            pl = None
+            if st["p"]["l"] == 2 and len(st["p"]["proj"]) >= 2 and st["p"]["proj"][0]["k"] == "deref":
+                pl = st["p"]["proj"][1]
+            r = st["r"]
+            if r["k"] == "ref" and r.get("bk") == "mut" and r["p"]["l"] == 2:
+                if len(r["p"]["proj"]) < 2:
+                    return None  # the whole context escapes: cannot enumerate
+                pl = r["p"]["proj"][1]
+            if pl is None or pl["k"] != "field":
+                continue
+            fld = str(pl.get("n") or pl.get("i"))
+            may.add(fld)
+            if rets and all(f.dominates(x, rb) for rb in rets):
+                must.add(fld)
+    return may, must
+
+
 def rule_ptrace_requests(ctx, R="C04/ptrace-requests"):
     """`equal to the registers the thread had` starts with asking the kernel for the right thing: each getter issues the request
     number and note type of the Linux ptrace ABI for the struct it returns, for the tid it was given; the shared helpers hand the
@@ -795,6 +899,7 @@ def rule_ptrace_requests(ctx, R="C04/ptrace-requests"):
 def run(ctx):
     rule_reg_map(ctx)
     rule_regs_source(ctx)
+    rule_fresh_context(ctx)
     rule_ptrace_requests(ctx)
     rule_one_per_thread(ctx)
     rule_window(ctx)
